@@ -64,6 +64,9 @@ ArithModel(ev) ==
       [] ev.ty = "dec256" /\ ev.op = "div"    -> DecDiv(a, b)
       [] ev.ty = "dec256" /\ ev.op = "fromratio" -> DecFromRatio(a, b)
       [] ev.ty = "dec256" /\ ev.op = "fromuint"  -> DecFromUint(a)
+      [] ev.op = "percent"                       -> RawMul(a, NDiv(DFRAC, NOfInt(100)))
+      [] ev.op = "permille"                      -> RawMul(a, NDiv(DFRAC, NOfInt(1000)))
+      [] ev.op = "from64"                        -> Ok(a)
 
 \* the mathematical result of the operator (no width restriction on intermediates): [def, v]
 Exactly(def, v) == [def |-> def /\ Fits256(v), v |-> v]
@@ -81,6 +84,9 @@ ArithExact(ev) ==
       [] ev.ty = "dec256" /\ ev.op = "mul"         -> Exactly(TRUE, NDiv(NMul(a, b), DFRAC))
       [] ev.op \in {"div", "fromratio"}            -> quo(NMul(a, DFRAC), b)
       [] ev.op = "fromuint"                        -> Exactly(TRUE, NMul(a, DFRAC))
+      [] ev.op = "percent"                         -> Exactly(TRUE, NDiv(NMul(a, DFRAC), NOfInt(100)))
+      [] ev.op = "permille"                        -> Exactly(TRUE, NDiv(NMul(a, DFRAC), NOfInt(1000)))
+      [] ev.op = "from64"                          -> Exactly(TRUE, a)
 
 \* C08: a returned value is exactly the mathematical result (whatever intermediate width the code uses); an abort
 \* happens only where the statement allows one: an operand product or the result exceeds 256 bits, a divisor is
@@ -88,6 +94,8 @@ ArithExact(ev) ==
 ArithOK(ev) ==
     IF ev.op = "cmp"
     THEN ev.r.v = (IF NLt(ev.a, ev.b) THEN -1 ELSE IF ev.a = ev.b THEN 0 ELSE 1)
+    ELSE IF ev.op = "iszero"
+    THEN ev.r.v = (IF ev.a = N0 THEN 1 ELSE 0)
     ELSE IF ev.r.ok
          THEN ArithExact(ev).def /\ ev.r.v = ArithExact(ev).v
          ELSE ~ArithModel(ev).ok
